@@ -268,7 +268,8 @@ def _iterpath_list(list_, path):
 def check_tlp_marking(marking_obj, spec_version):
     # Specific TLP Marking validation case.
 
-    if marking_obj.get("definition_type", "") == "tlp":
+    # (A 2.1 marking which relies on extensions may lack "definition".)
+    if marking_obj.get("definition_type", "") == "tlp" and "definition" in marking_obj:
         color = marking_obj["definition"]["tlp"]
 
         if color == "white":
